@@ -1,7 +1,9 @@
 """C04 — non-moving, immortal and pinned objects never move; immortal ones never die."""
 from checks import gcmon_common as C
 
-THEOREMS = ["Mmtk.Heap.firstMoved_none_iff", "Mmtk.Heap.applyOp_sem_stable", "Mmtk.Heap.applyOp_pinned_stable"]
+THEOREMS = ["Mmtk.Heap.firstMoved_none_iff", "Mmtk.Heap.applyOp_sem_stable", "Mmtk.Heap.applyOp_pinned_stable",
+            # the abstract algorithm (every schedule / every history), package algo
+            "Mmtk.Trace.nonmoving_fixed", "Mmtk.Trace.nonmoving_slot_fixed", "Mmtk.Trace.pinned_fixed", "Mmtk.Trace.sem_fixed", "Mmtk.Trace.immortal_never_released", "Mmtk.Trace.immortal_later_alloc_disjoint", "Mmtk.Trace.nogc_never_released", "Mmtk.Trace.los_reachable_survive"]
 META = {
     "text": "At every snapshot the monitor requires every object whose semantics is not Default, every pinned object, and every object of a plan that reports moves=0, to have the reference it had when last seen (allocation result or previous snapshot); dropped objects of immortal spaces (every object under NoGC) must still answer `is_mmtk_object` with their id after further exhaustive GCs (`ismo`, vo_bit builds). Proved: `firstMoved` answers none exactly when all such objects kept their reference (`firstMoved_none_iff`); no mutator op other than pin/unpin of that id changes an object's semantics or pinned flag (`applyOp_sem_stable`, `applyOp_pinned_stable`), so the monitor's `fixed` set is the program's. Real runs: the shared traces (programs `immortal`: pinned + non-moving objects among garbage, exhaustive and nursery GCs, then dropped and probed).",
     "note": "Level: proof of the verdict function, partial w.r.t. the code. Known F-G (pin on copying policies panics) is reported under gc:pin-panics by a dedicated corpus program; pin is only generated for Default objects of Immix / StickyImmix / ConcurrentImmix.",
@@ -11,6 +13,6 @@ META = {
 
 
 def main(argv=None):
-    return C.run_check("C04", argv, ["MmtkModel.Props.C04"], THEOREMS, "common",
+    return C.run_check("C04", argv, ["MmtkModel.Props.C04", "MmtkModel.Props.C04Algo"], THEOREMS, "common",
                        rule="one evaluation = one snapshot compared for fixed objects, or one `ismo` probe of a dropped immortal object; non-trivial = a snapshot after >= 1 pause with >= 2 objects",
                        assumptions=["feature sets without vo_bit skip the `ismo` probes (unsupported)"])
